@@ -29,3 +29,4 @@ import Mb2.Props.FnsFind
 import Mb2.Props.FnsCast
 import Mb2.Props.FnsBoxed
 import Mb2.Props.FnsBoxedCtor
+import Mb2.Props.FnsLinked
